@@ -16,7 +16,7 @@ from . import common, gen
 from .common import fmt_nd, close
 
 PROP = 'C08'
-GENERATED = ['Proj', 'Fold']     # Fold: C08_fold_generated ties the model's fold/unfold to the programs regenerated from the source
+GENERATED = ['Proj', 'ProjFold']     # ProjFold: fold/unfold/reverse_array programs (C08_fold_generated, C08_fold_wiring)
 NEEDS_BUILD = False
 NEEDS_DRIVER = True
 DRIVER_MODULES = ['Projection']
@@ -1117,7 +1117,7 @@ def run(chk, ctx):
     chk.unproved = [
         'round-off of gammaln/exp and of the float accumulation: agreement of the float code with the exact rational model is numerical (1e-9 of the array scale; observed <= 3e-13 up to n = 200)',
         'the numpy slice/broadcast bookkeeping of _project_one_axis in d dimensions is tied to the pointwise model (C08_axis_entry) by correspondence and by the statement-list check C08_wiring, not by translation',
-        'fold/unfold of the model (Model/Spectrum.lean) are proved equal, entry by entry, to the programs regenerated from Spectrum.fold/unfold by C09\'s translator (C08_fold_generated) and tied by correspondence; reverse_array (Spec.mirror) and the raw total (Spec.total) are tied by correspondence only',
+        'fold/unfold of the model (Model/Spectrum.lean) are proved equal, entry by entry, to the programs regenerated from Spectrum.fold/unfold (tools/gen_ProjFold.py, using C09\'s translator; C08_fold_generated, C08_fold_wiring) and tied by correspondence; reverse_array (Spec.mirror) and the raw total (Spec.total) are tied by correspondence only',
         'the array theorems (C08_total_array, C08_compose_array, C08_axes_commute_array, C08_mask_array, C08_mirror_array, C08_fold_commute) assume no axis of length 0; mask spread of a *folded* source is stated through fold(project(unfold)) (C08_folded + C08_mask_array on the unfolded spectrum), not as a closed formula',
         'dictionary semantics of the cache (hit returns the stored row) is exercised (cold/warm), its transparency theorem is C20']
     sweep_weights(chk, ctx, nmax, rng)
